@@ -21,7 +21,21 @@ def r_c15(toks):
     if k == "CRP": return f"run_crp {toks[1]} {toks[2]}"
     if k == "CRS": return f"run_crs {hex_to_coq(toks[1])}"
 
+def r_c13(toks):
+    return f"{'run_af' if toks[0] == 'AF' else 'run_packet'} {hex_to_coq(toks[1])}"
+
 PROPS = {
+    "C13": dict(
+        props_files=["Props/C13.v"],
+        suites=["C13"],
+        render=r_c13,
+        rule="all 256 flag bytes x all adaptation-field lengths 1..=183 x fill in {00, FF, counting, random} with the private-data "
+             "and extension length bytes steered to {0, 1, fit-1, fit, fit+1, ...}; all 8 extension flag sets x extension lengths "
+             "0..=12 x 8 preceding-field combinations with truncation; adaptation fields delimited by Packet::adaptation_field; "
+             "distinct = distinct case lines; all non-trivial (every accessor is evaluated on every case)",
+        trusted=["13818-1 Table 2-6 as transcribed in coq/Spec/AdaptationSpec.v (sequential byte-cursor reader)"],
+        assumptions=["input bytes are < 256", "AdaptationField::new is only specified for non-empty slices (its documented precondition)"],
+    ),
     "C15": dict(
         props_files=["Props/C15.v"],
         suites=["C15"],
